@@ -511,7 +511,7 @@ theorem integralLoop_spec (axes : List (List Q)) : ∀ (l : List (List Nat × Q)
   | (ind, c) :: rest, t, h => by
     obtain ⟨lens, hl, hp⟩ := binLengths_volume axes ind (h (ind, c) List.mem_cons_self)
     have ih := integralLoop_spec axes rest (t + prod lens * c) (fun p hp' => h p (List.mem_cons_of_mem _ hp'))
-    simp only [integralLoop, hl, bind, Except.bind, ih, List.map_cons, List.sum_cons, hp]
+    simp only [integralLoop, hl, bind, Except.bind, List.map_cons, List.sum_cons, hp]
     congr 1
     grind
 
@@ -586,7 +586,7 @@ theorem parse_fmt (x : Q) : parseFixed (fmtF x).toList = (decide (x < 0), millio
     have := Nat.div_add_mod (millionths x) 1000000
     omega
   by_cases hx : x < 0
-  · simp only [hx, if_true, List.singleton_append, List.cons_append, List.nil_append, parseFixed, stripSign, hsplit,
+  · simp only [hx, if_true, List.cons_append, List.nil_append, parseFixed, stripSign, hsplit,
       hval, decide_true]
   · simp only [hx, if_false, List.nil_append, decide_false]
     cases hd : Nat.toDigits 10 (millionths x / 1000000) with
@@ -797,7 +797,9 @@ example : ∃ g, mkGraph [[1, 2], [3, 4], [1, 1]] (.tuple ["x".toList, "y".toLis
   refine ⟨g, hg, ?_⟩
   have h1 : (mkGraph [[1, 2], [3, 4], [1, 1]] (.tuple ["x".toList, "y".toList, "error_y_low".toList]) (some 2)).toOption.bind
       (fun g => (graphSetScale g 3).toOption.map (·.coords)) = some [[1, 2], [9/2, 6], [3/2, 3/2]] := by decide +kernel
-  simpa [hg, Except.toOption] using h1
+  have hg' : mkGraph [[1, 2], [3, 4], [1, 1]] (.tuple ["x".toList, "y".toList, "error_y_low".toList]) (some 2) = .ok g := hg
+  rw [hg'] at h1
+  exact h1
 
 example : ∃ I, getScale exHist2 false = .ok ({ exHist2 with scale := some I }, I) ∧ (I ≠ 0 → ∃ h', setScale exHist2 7 = .ok h') := by
   obtain ⟨I, h1, _, h3⟩ := hist_scale_total exHist2 exHist2_wf 7
@@ -813,12 +815,17 @@ example : scaleTo .selectHist [.other, .other] false false = ([.other, .other], 
 example : coordRangeAxis (fun lo _ => (lo : Int)) [0, 1, 2, 3, 4] (1/2, 5/2) = .ok (some (0, 2)) := by
   have := coord_range_axis_selects _ guessOK_lo [0, 1, 2, 3, 4] (by decide +kernel) (by simp) (1/2) (5/2)
   rw [this]
-  decide +kernel
+  have h1 : edgesNotAbove [0, 1, 2, 3, 4] (5 / 2) = 3 := by decide +kernel
+  have h2 : edgesNotAbove [0, 1, 2, 3, 4] (1 / 2) = 1 := by decide +kernel
+  simp [h1, h2]
 example : getBinEdges (.tuple [1, 0]) exHist2.edges = .ok (.pairs [(1, 3), (0, 2)]) :=
   get_bin_edges_nested [[0, 1, 3], [0, 2]] [1, 0] (by simp [InRange])
 example : getBinEdges (.num 1) (.flat [0, 1, 3]) = .ok (.pair 1 3) := (get_bin_edges_flat [0, 1, 3] 1 [] (by simp)).1
 example : iterCellsCoord (fun _ lo _ => (lo : Int)) exHist4 false (.many [(1/2, 5/2)]) = .ok [] ∨
-    ∃ r rs, ValidRanges exHist4.edges.axes (r :: rs) ∧ _ :=
+    ∃ r rs, ValidRanges exHist4.edges.axes (r :: rs) ∧
+      iterCellsCoord (fun _ lo _ => (lo : Int)) exHist4 false (.many [(1/2, 5/2)]) =
+        .ok (((cells exHist4.bins).filter (fun p => selAll (List.zipWith rangePred exHist4.edges.axes (r :: rs)) p.1)).map
+          (fun p => { edges := cellEdgesRef exHist4.edges.axes p.1, bin := .leaf p.2, index := p.1 })) :=
   iter_cells_coord_ranges _ (fun _ => guessOK_lo) exHist4
     ⟨by simp [exHist4, Edges.axes], by simp [exHist4, Hist.nbins, nbinsOf, Edges.axes, HasShape]⟩
     (by simp [exHist4, Edges.NonEmptyAxes, Edges.axes]) (1/2, 5/2) [] (by simp [exHist4, Edges.axes])
